@@ -84,6 +84,34 @@ fn main() {
         }
         println!("w2-baseline: {n} programs, {bad} mismatches, {} events avg", ev as f64 / n as f64);
         i32::from(bad > 0)
+    } else if args[1] == "events" {
+        // run one case file several times and print the event logs (debugging aid)
+        let file = args.get(2).cloned().unwrap_or_else(|| usage());
+        let reps: usize = args.get(3).and_then(|v| v.parse().ok()).unwrap_or(2);
+        let ctx = Ctx::new(cfg, seed, "quick", corpus, verif_dir);
+        exec::start_watchdog();
+        let j: serde_json::Value = serde_json::from_str(&std::fs::read_to_string(&file).expect("read case")).expect("json");
+        let case = engine::Case::from_json(&j).expect("case");
+        for k in 0..reps {
+            let r = ctx.run(0, &case.program, &case.world, &case.plan);
+            println!("--- run {k}: digest={:016x} events={} status={}", r.digest(), r.events.len(), r.status.render());
+            for e in &r.events {
+                println!("{}", e.render());
+            }
+        }
+        0
+    } else if args[1] == "dump-programs" {
+        // write sample programs of every stream to a directory (for the strace seam cross-check)
+        let dir = PathBuf::from(args.get(2).cloned().unwrap_or_else(|| usage()));
+        let n: u64 = args.get(3).and_then(|v| v.parse().ok()).unwrap_or(40);
+        let _ = std::fs::create_dir_all(&dir);
+        let ctx = Ctx::new(cfg, seed, "quick", corpus, verif_dir);
+        for i in 0..n {
+            let mut rng = rng::Rng::for_run(seed, "dump-programs", i);
+            let p = props::c19::pick_program(&ctx, &mut rng);
+            let _ = std::fs::write(dir.join(format!("p{i}.sd")), &p.program);
+        }
+        0
     } else if args[1] == "replay" {
         let file = args.get(2).cloned().unwrap_or_else(|| usage());
         let ctx = Ctx::new(cfg, seed, "quick", corpus, verif_dir);
